@@ -216,6 +216,8 @@ def _family(tier):
     from props import indexmath_family
     out += indexmath_family.specs(tier)
     out.append(("one intersector bound to two ranks", "metrics", SHARED_INTERSECTOR))
+    from props import hoist_family
+    out += [(n_, "plain", y_) for n_, y_ in hoist_family.specs(tier, only_well_ordered=False)]
     return out
 
 
@@ -293,6 +295,8 @@ def cause_of(problem, text, y):
     m = re.match(r"name (\w+) read at line (\d+) is not bound", problem)
     if not m:
         return ""
+    if y.startswith("# loop order puts a partition level above an outer level of the same rank"):
+        return "partition-levels-looped-inner-first"
     var, line = m.group(1), text.split("\n")[int(m.group(2)) - 1]
     flattened = {"".join(x.strip() for x in t.split(",")) for t in re.findall(r"\(([A-Z][A-Z0-9, ]*)\): \[flatten\(\)\]", y)}
     root = re.sub(r"[0-9]+$", "", var.upper())
